@@ -87,7 +87,15 @@ func (p *uPacketPacker) PackCoalescedPacket(onlyAck bool, maxSize protocol.ByteC
 		//      (fixes the next datagram's CRYPTO offset; e.g. Chrome splits at 999), or
 		//   2. a QUICRandomFrames padding request — reserve a little room so PADDING fits.
 		hdrLen := p.getLongHeader(protocol.EncryptionInitial, v).GetLength(v)
-		if plan := p.uSpec.InitialPacketSpec.planFor(p.initialDatagramIdx); plan.CryptoLength > 0 {
+		plan := p.uSpec.InitialPacketSpec.planFor(p.initialDatagramIdx)
+		// A PacketSize below the maximum packet size pins the packet to that size: pop no more
+		// CRYPTO than such a packet holds. Without this only CryptoLength limited the data, so
+		// a ClientHello longer than one packet filled the whole maximum packet size and the
+		// packet went out larger than the PacketSize it was to be padded to.
+		if ps := protocol.ByteCount(plan.PacketSize); ps > 0 && ps < maxSize {
+			initialMaxSize = ps - protocol.ByteCount(initialSealer.Overhead())
+		}
+		if plan.CryptoLength > 0 {
 			off := uint64(p.initialStream.writeOffset)
 			cl := protocol.ByteCount(plan.CryptoLength)
 			cryptoFrame := 1 + protocol.ByteCount(quicvarint.Len(off)) +
